@@ -185,6 +185,9 @@ WITNESSES = [
     dict(id="c20-ok-evd-restart-early-return", prop="C20", file=F, expect=None,
          old=_EVD_PREF, new="                expr = expr.subs(preferred, killable)\n                if len(deltas) == 1:\n                    return expr\n"
                             "                return evaluate_deltas(expr, tuple(target_idx))"),
+    dict(id="c20-ok-evd-restart-conditional", prop="C20", file=F, expect=None,
+         old=_EVD_PREF, new="                remaining = expr.subs(preferred, killable)\n"
+                            "                return evaluate_deltas(remaining, target_idx) if len(deltas) > 1 else remaining"),
     dict(id="c20-ok-evd-restart-always", prop="C20", file=F, expect=None,
          edits=[(_EVD_KILL, "                expr = expr.subs(killable, preferred)\n                return evaluate_deltas(expr, target_idx)"),
                 (_EVD_PREF, "                expr = expr.subs(preferred, killable)\n                return evaluate_deltas(expr, target_idx)")]),
